@@ -13,5 +13,5 @@ assert old in s, "pattern not found"
 open(p,'w').write(s.replace(old,new,1))
 PY
 cd /verif
-PYTHONPATH="$D/src" ./check "$PROP" --tier "$TIER" $EXTRA 2>&1 | tail -4
+VERIF_NO_EVIDENCE=1 PYTHONPATH="$D/src" ./check "$PROP" --tier "$TIER" $EXTRA 2>&1 | tail -4
 rm -rf "$D"
